@@ -17,6 +17,9 @@ CLAIMED = {
  "C07": ("E2 product over construct nestings",
          "all chains of depth 1..3 (thorough: plus depth 4 over 10 core constructs) over ~38 (thorough 64) construct variants (bare block, if x truth value, if/else x arm, else-if chains of 2 and 3 conditions x all truth assignments x child arm, while, for over list literal / list variable / string / object / range, named / anonymous / method call) x 13 innermost statements (none; break / continue / return bare or armed to fire on the 1st/2nd/3rd reach), the same chains with the jump in a sibling position before / after the child at every level, a shadowed variable declared at every level, and 30 loop bodies that mutate the iterated value or the loop bound; oracle = exact print trace and termination class of the reference interpreter",
          "exhaustive enumeration of construct nestings x jump placements x truth assignments on the real interpreter against a reference interpreter"),
+ "C10": ("E2 product (complete over the pool)",
+         "all ordered pairs over an exhaustive pool of ~290 (quick) / ~500 (thorough) nested values (atoms, a function, every list of length <= 2 and object over keys a, b, one and two levels deep) x 3 construction patterns (operands built separately; every equal container sub-term built once and referenced everywhere, across and inside the operands; object keys in reverse order) x 4 programs (==, reversed ==, != first, the === matrix), plus all pairs of lists over {0,1} of length <= 5 and of objects over every subset of four keys; oracle = tolerant structural-equality reference computed without short-cuts (a boolean where no differently-typed positions exist; a diagnostic naming an occurring kind pair, or `false` only when a plain difference exists, otherwise) and laws on the subject's own answers: operand order, negation, transitivity over the whole table, sharing- and order-independence, === reflexive / symmetric / implies ==, operands print unchanged",
+         "exhaustive enumeration of all value pairs up to a size bound on the real interpreter against a reference relation and algebraic laws"),
  "C11": ("E2 product (complete)",
          "all lists of length 0..4 (quick) / 0..7 (thorough) and strings of length 0..5 / 0..7 plus multi-byte strings x every index in [-2,len+2] x every bound pair in ([-2,len+2] + omitted)^2 x element assignment x range assignment from lists, strings (ASCII and multi-byte) and the list itself of every length 0..len+1 x all concatenation length pairs x non-integer index kinds; oracle = slice model written from the statement (definedness domain + value) and the laws s[:k]+s[k:]==s, (s+t)[len(s)+i]==t[i] evaluated by the subject",
          "exhaustive enumeration of all sequences/indices/bounds up to a length bound on the real interpreter against a sequence model"),
